@@ -1,5 +1,7 @@
 import Proofs.C05Wf
 import Props.C01
+import Props.C12
+import Props.C14
 /-!
 # C05 — each token has one owner on every replica (property theorems)
 
@@ -77,6 +79,21 @@ theorem lookups_total_on_reachable {s : Desc} (h : Reachable s) (cfg : C01.Cfg) 
     C01.get cfg s (C01.sortedTokens s) key op now ≠ .error .panic :=
   let hw := PfC05.reachable_wf h
   PC01.walk_no_inconsistent cfg s key op now ⟨hw.nodup, hw.noconf⟩ hrf
+
+/-- shuffle sharding (plain and with look-back, any size, identifier stream and time) over any
+reachable state never takes the inconsistent-token (panic) branch of `shuffleShard` (C12's checked
+model `shardIdsC`, tied to `Ring.ShuffleShard(WithLookback)` by C12's correspondence check). -/
+theorem shuffle_shard_total_on_reachable {s : Desc} (h : Reachable s) (cfg : C12.Cfg)
+    (starts : String → Nat → Nat) (size period now : Int) :
+    C12.shardIdsC cfg s starts size period now = .ok (C12.shardIds cfg s starts size period now) :=
+  PC12.shardIds_total_on_wf cfg s (PfC05.reachable_wf h).noconf starts size period now
+
+/-- token-range computation over any reachable state never reports inconsistent token information
+and never panics (C14's model of `GetTokenRangesForInstance`), and returns ranges whenever the ring
+is usable for it (zone set and holding tokens). -/
+theorem token_ranges_total_on_reachable {s : Desc} (h : Reachable s) (za : Bool) (rf : Nat) (id : String) :
+    C14.rangesForInstance s za rf id ≠ .error .inconsistent ∧ C14.rangesForInstance s za rf id ≠ .error .panic :=
+  PC14.ranges_never_inconsistent s za rf id
 
 /-! ### Non-vacuity -/
 
